@@ -45,6 +45,63 @@ def scn(params):
         H.sim.close()
 
 
+def scn_restart(params):
+    """The server is restarted (same options, a later moment): the challenges it hands out in the new run are not the ones it
+    handed out before, so a login recorded in the earlier run (the datagram travels through third-party resolvers) is worth
+    nothing afterwards."""
+    from simnet import mclient, proto, scen
+    from simnet.scen import US
+    seed = params["seed"]
+    rng = random.Random(params["rseed"])
+    out = {"violations": [], "nontrivial": [], "stats": {"restart_runs": 1}, "evaluations": 0, "sets": {}}
+    sim = scen.Sim("c03r-%d" % params["idx"], seed)
+    try:
+        k = sim.k
+        runs = []
+        recorded = None
+        for r in range(2):
+            srv = sim.server(name="srv%d" % r)
+            if not srv.alive():
+                out["inconclusive"] = "server-died-at-start"
+                return out
+            chs = []
+            for j in range(params["nsess"]):
+                mc = mclient.ModelClient("10.53.%d.%d" % (8 + r, j + 1), (scen.SERVER_IP, 53), sim.domain, sim.password, random.Random(rng.getrandbits(32)),
+                                         qtype=rng.choice(list(proto.QTYPES.values())))
+                k.add_actor(mc.ip, mc)
+                p = mc.version()
+                if not p or p[:4] != b"VACK":
+                    break
+                chs.append((mc.userid, mc.challenge))
+                out["evaluations"] += 1
+                if r == 0 and j == 0:
+                    mc.login()
+                    recorded = (mc.userid, mc.dgrams[-1], mc.ip, mc.sport)
+                elif r == 1 and j == 0 and recorded is not None:
+                    # the recorded login datagram of the first run, byte for byte, from the address it came from then
+                    n0 = sum(1 for ev in k.log if ev[1] == "send" and ev[2] == "srv1")
+                    k.transmit((recorded[2], recorded[3]), (scen.SERVER_IP, 53), recorded[1])
+                    k.run(k.now + 50000)
+                    rows = srv.snapshot
+                    if recorded[0] < len(rows) and rows[recorded[0]]["authenticated"]:
+                        out["violations"].append(("C03:login-recorded-before-a-restart-accepted", "a login datagram recorded in the server's previous run was accepted after the restart (slot %d is authenticated)" % recorded[0],
+                                                  {"seed": seed, "challenges_first_run": runs[0][:3] if runs else None, "challenges_second_run": chs[:3]}))
+            runs.append(chs)
+            if r == 0:
+                k.run(k.now + rng.choice([1, 2, 5, 90, 4000]) * US + rng.randrange(1000000))
+                k.kill("srv0")
+                k.run(k.now + rng.choice([1, 3, 30]) * US)
+        if len(runs) == 2 and runs[0] and runs[1]:
+            out["stats"]["restart_challenge_sequences_compared"] = 1
+            if [c for _u, c in runs[0]] == [c for _u, c in runs[1]] and len(runs[0]) >= 2 and not out["violations"]:
+                out["violations"].append(("C03:challenges-repeat-after-restart", "the %d challenges handed out after the restart are exactly those of the previous run (%s)"
+                                          % (len(runs[1]), ", ".join("0x%08x" % c for _u, c in runs[1][:3])), {"seed": seed}))
+            out["nontrivial"].append("restart nsess=%d" % params["nsess"])
+        return out
+    finally:
+        sim.close()
+
+
 def run(ctx):
     res = core.Result()
     res.rule = ("history = 35-90 seeded operations against the real iodined by model-client parties: sessions at every "
@@ -81,5 +138,9 @@ def run(ctx):
             if not b.variant_applied:
                 res.notes = getattr(res, "notes", []) + ["build variant %s: knob not found in src/user.h, histories run on the default build" % variant]
             simrun.run_scenarios(res, b, scn, sub, jobs=ctx.jobs)
+    if not ctx.replay:
+        rlist = [{"idx": 900000 + i, "seed": ctx.seed * 100000 + 90000 + i, "rseed": rng.getrandbits(32), "nsess": rng.choice([2, 3, 5])} for i in range(ctx.pick(12, 300))]
+        with core.Build() as b:
+            simrun.run_scenarios(res, b, scn_restart, rlist, jobs=ctx.jobs)
     simrun.finalize_sets(res)
     return res
